@@ -159,7 +159,7 @@ def tokenize(text, atoms):
                 i = j
                 break
         else:
-            m = re.match(r"(\|\||&&|==|!=|<=|>=|<|>|\+|-|!|\(|\))", text[i:])
+            m = re.match(r"(\|\||&&|==|!=|<=|>=|<|>|\+|-|\*|/|!|\(|\))", text[i:])
             if m:
                 toks.append(("op", m.group(1)))
                 i += len(m.group(1))
@@ -233,14 +233,25 @@ class Parser:
         return ("(%s %s %s)" % (l[0], coq, r[0]), B)
 
     def p_add(self):
-        l = self.p_un()
+        l = self.p_mul()
         while True:
             o = self.op("+", "-")
             if not o:
                 return l
-            r = self.p_un()
+            r = self.p_mul()
             self.want(l, Z); self.want(r, Z)
             l = ("(%s %s %s)" % (l[0], o, r[0]), Z)
+
+    def p_mul(self):
+        l = self.p_un()
+        while True:
+            o = self.op("*", "/")
+            if not o:
+                return l
+            r = self.p_un()
+            self.want(l, Z); self.want(r, Z)
+            # C++ integer division truncates toward zero: Z.quot
+            l = (("(%s * %s)" % (l[0], r[0])) if o == "*" else ("(Z.quot %s %s)" % (l[0], r[0])), Z)
 
     def p_un(self):
         if self.op("!"):
@@ -493,6 +504,131 @@ def gen_alt(report):
     return defs
 
 
+ATOMS_ENTRY = {
+    "departureTimeSeconds": ("kdep", Z), "arrivalTimeSeconds": ("karr", Z),
+    "minAccessTravelTime": ("minacc", Z), "minEgressTravelTime": ("minegr", Z),
+}
+
+
+def gen_entry(report, fsrc, rsrc):
+    """the hour slot through which each scan enters its connection list"""
+    defs = []
+    specs = [("fwd", fsrc, FWD_ROUTE["sig"], "departureTimeHour", "getForwardConnectionsBeginAtDepartureHour", "(Z.quot kdep 3600)"),
+             ("fwdall", fsrc, FWD_ALL["sig"], "departureTimeHour", "getForwardConnectionsBeginAtDepartureHour", "(Z.quot kdep 3600)"),
+             ("rev", rsrc, REV_ROUTE["sig"], "arrivalTimeHour", "getReverseConnectionsBeginAtArrivalHour", "((Z.quot karr 3600) + 1)"),
+             ("revall", rsrc, REV_ALL["sig"], "arrivalTimeHour", "getReverseConnectionsBeginAtArrivalHour", "((Z.quot karr 3600) + 1)")]
+    for prefix, src, sig, var, call, hand in specs:
+        expr, origin = hand, "hand"
+        try:
+            body = "".join(fn_body(src, sig).split())
+            m = re.search(call + r"\(", body)
+            if not m:
+                raise Untranslatable("call of %s not found" % call)
+            i = m.end() - 1
+            depth = 0
+            arg = None
+            for k in range(i, len(body)):
+                if body[k] == "(":
+                    depth += 1
+                elif body[k] == ")":
+                    depth -= 1
+                    if depth == 0:
+                        arg = body[i + 1:k]
+                        break
+            if arg is None:
+                raise Untranslatable("unbalanced call")
+            md = re.search(r"int" + var + r"=(.*?);", body)
+            if md and var in arg:
+                arg = arg.replace(var, "(" + md.group(1) + ")")
+            e, used = translate(arg, ATOMS_ENTRY, Z)
+            expr, origin = e, "source"
+        except (Untranslatable, ValueError) as e:
+            report["fallback"].append("%s_entry_hour: %s" % (prefix, e))
+        report["guards"][prefix + "_entry_hour"] = origin
+        defs.append("Definition gen_%s_entry_hour (kdep karr minacc minegr : Z) : Z :=\n  %s.   (* %s *)" % (prefix, expr, origin))
+    return defs
+
+
+ATOMS_CMP = {
+    "connectionA.get().getDepartureTime()": ("dep_a", Z), "connectionB.get().getDepartureTime()": ("dep_b", Z),
+    "connectionA.get().getArrivalTime()": ("arr_a", Z), "connectionB.get().getArrivalTime()": ("arr_b", Z),
+    "connectionA.get().getTrip().uuid": ("trip_a", Z), "connectionB.get().getTrip().uuid": ("trip_b", Z),
+    "connectionA.get().getSequenceInTrip()": ("seq_a", Z), "connectionB.get().getSequenceInTrip()": ("seq_b", Z),
+}
+CMP_HAND = {
+    "fwd_lt": "((dep_a <? dep_b) || ((negb (dep_a >? dep_b)) && ((trip_a <? trip_b) || ((negb (trip_a >? trip_b)) && ((seq_a <? seq_b) || ((negb (seq_a >? seq_b)) && false))))))",
+    "rev_lt": "((arr_a >? arr_b) || ((negb (arr_a <? arr_b)) && ((trip_a >? trip_b) || ((negb (trip_a <? trip_b)) && ((seq_a >? seq_b) || ((negb (seq_a <? seq_b)) && false))))))",
+}
+
+
+def gen_comparators(report):
+    """the two std::stable_sort comparators of transit_data.cpp (a cascade of `if (c) return b;` ... `return b;`) as
+    boolean formulas: `if c return true; rest` = c || rest, `if c return false; rest` = negb c && rest"""
+    defs = []
+    names = ["fwd_lt", "rev_lt"]
+    bodies = []
+    try:
+        src = strip_c_comments(open(os.path.join(REPO, "src/transit_data.cpp")).read())
+        for m in re.finditer(r"std::stable_sort\s*\(", src):
+            j = src.index("{", m.end())
+            depth = 0
+            for k in range(j, len(src)):
+                if src[k] == "{":
+                    depth += 1
+                elif src[k] == "}":
+                    depth -= 1
+                    if depth == 0:
+                        bodies.append("".join(src[j + 1:k].split()))
+                        break
+    except Exception as e:
+        report["fallback"].append("comparators: %s" % e)
+    for idx, name in enumerate(names):
+        expr, origin = CMP_HAND[name], "hand"
+        try:
+            if len(bodies) != 2:
+                raise Untranslatable("%d stable_sort comparators found, 2 expected" % len(bodies))
+            b = bodies[idx]
+            clauses = []
+            pos = 0
+            final = None
+            while pos < len(b):
+                m = re.match(r"(?:else)?if\(", b[pos:])
+                if m:
+                    i = pos + m.end() - 1
+                    depth = 0
+                    for k in range(i, len(b)):
+                        if b[k] == "(":
+                            depth += 1
+                        elif b[k] == ")":
+                            depth -= 1
+                            if depth == 0:
+                                break
+                    cond = b[i + 1:k]
+                    m2 = re.match(r"\{?return(true|false);\}?", b[k + 1:])
+                    if not m2:
+                        raise Untranslatable("comparator clause is not `if (c) return b;`")
+                    clauses.append((cond, m2.group(1)))
+                    pos = k + 1 + m2.end()
+                    continue
+                m = re.match(r"return(true|false);", b[pos:])
+                if m and pos + m.end() == len(b):
+                    final = m.group(1)
+                    break
+                raise Untranslatable("unexpected comparator text: " + b[pos:pos + 40])
+            if final is None:
+                raise Untranslatable("no final return")
+            e = final
+            for cond, val in reversed(clauses):
+                c, _ = translate(cond, ATOMS_CMP, B)
+                e = ("(%s || %s)" % (c, e)) if val == "true" else ("((negb %s) && %s)" % (c, e))
+            expr, origin = e, "source"
+        except Untranslatable as e:
+            report["fallback"].append("%s: %s" % (name, e))
+        report["guards"]["sort_" + name] = origin
+        defs.append("Definition gen_%s (dep_a dep_b arr_a arr_b trip_a trip_b seq_a seq_b : Z) : bool :=\n  %s.   (* %s *)" % (name, expr, origin))
+    return defs
+
+
 def regenerate():
     report = dict(guards={}, fallback=[])
     fsrc = strip_c_comments(open(os.path.join(REPO, "connection_scan_algorithm/src/forward_calculation.cpp")).read())
@@ -509,6 +645,8 @@ def regenerate():
     out += gen_copy("revall", "rev", rsrc, REV_ALL, {k: v for k, v in REV_ARGS.items() if k not in ("acc_reached", "best_time", "best_ok", "tent")},
                     REV_HAND, ATOMS_REV, report)
     out += gen_alt(report)
+    out += gen_entry(report, fsrc, rsrc)
+    out += gen_comparators(report)
     text = "\n".join(out) + "\n"
     os.makedirs(os.path.dirname(OUT), exist_ok=True)
     old = open(OUT).read() if os.path.exists(OUT) else None
